@@ -1165,6 +1165,16 @@ pub fn c12(property: &str, seed: u64, index: u64) -> Plan {
                     payload: Payload::Msg { magic: *c.pick(&[23, j], &[MagicSel::Real, MagicSel::Wrong, MagicSel::Zero]), body: MBody::SyncReply { random_reply: c.u(&[24, j]) as u32 } },
                 });
             }
+            // a peer that was restarted while connecting: handshake requests under another magic
+            // from the right address, some of them before the genuine peer's first request
+            if c.chance(&[26], 300_000) {
+                for j in 0..c.range(&[27], 1, 3) {
+                    let to = c.range(&[28, j], 0, n as u64 - 1) as usize;
+                    let from = ((to + 1 + c.range(&[29, j], 0, n as u64 - 2) as usize) % n) as u16;
+                    let at = if c.chance(&[30, j], 500_000) { c.range(&[31, j], 0, ms(30)) } else { c.range(&[31, j], 0, ms(2500)) };
+                    p.injects.push(Inject { at_us: at, to, from_addr: from, payload: Payload::Msg { magic: MagicSel::Wrong, body: MBody::SyncRequest { random_request: c.u(&[32, j]) as u32 } } });
+                }
+            }
             let slowest = p.links.iter().map(|l| l.base_us + l.jitter_us).max().unwrap_or(0);
             p.horizon_us = ms(c.range(&[25], 3000, 9000)) + 12 * slowest;
             p
@@ -1430,6 +1440,22 @@ fn c08_live(property: &str, seed: u64, index: u64) -> Plan {
             x => x,
         };
         p.injects.push(Inject { at_us: at, to, from_addr, payload });
+    }
+    // another session's handshake traffic from a known address while the handshake is still going on
+    // (a peer restarted while connecting): it may cost a reply, it must not decide anything
+    // (not in runs with a death: there every extra reply shifts the timing the cut-off frame depends on)
+    if !death && c.chance(&[40], 300_000) {
+        let peers = p.peers();
+        for j in 0..c.range(&[41], 1, 3) {
+            let to = peers[c.range(&[42, j], 0, peers.len() as u64 - 1) as usize];
+            let others: Vec<usize> = peers.iter().copied().filter(|&x| x != to).collect();
+            if others.is_empty() {
+                continue;
+            }
+            let from = others[c.range(&[43, j], 0, others.len() as u64 - 1) as usize] as u16;
+            let body = if c.chance(&[44, j], 700_000) { MBody::SyncRequest { random_request: c.u(&[45, j]) as u32 } } else { MBody::KeepAlive };
+            p.injects.push(Inject { at_us: c.range(&[46, j], 0, ms(40)), to, from_addr: from, payload: Payload::Msg { magic: MagicSel::Wrong, body } });
+        }
     }
     p.injects.sort_by_key(|i| i.at_us);
     p
